@@ -55,12 +55,18 @@ func gramCases(j run.Job, yield func(c GCase)) {
 		maxLen := j.Param("maxlen", 8)
 		inputs := j.Param("inputs", 6)
 		for gi := 0; gi < j.N; gi++ {
-			o := gram.GenOpts{Stratified: j.Param("strat", 1) == 1, LRFree: j.Param("lrfree", 0) == 1}
+			o := gram.GenOpts{Stratified: j.Param("strat", 1) == 1, LRFree: j.Param("lrfree", 0) == 1, Trims: j.Param("trims", 0) == 1}
+			if o.Trims {
+				o.Alpha = "ab \n"
+			}
 			if j.Param("nl", 0) == 1 && r.Intn(2) == 0 {
 				o.Alpha = "ab\n"
 			}
 			g := gram.Random(r, o)
 			fam := "random"
+			if o.Trims {
+				fam = "random+trims"
+			}
 			// only recursive nonterminals have to be memoized: leave some of the others plain
 			rec := g.RecursiveNTs()
 			for i := range g.NTs {
